@@ -1785,6 +1785,23 @@ func genC14(g *G, sc *Scenario, tier string, seed uint64) {
 			ops = append(ops[:at:at], append([]Op{op}, ops[at:]...)...)
 		}
 	}
+	if hg.P(0.12) {
+		// a job that has run is deleted and later defined again under the same id: it goes on from where it was
+		mk := func() Op {
+			return Op{K: "addJob", M: map[string]any{"id": "jobT", "title": "title-t", "source": map[string]any{"Type": "DatasetSource", "Name": "dsA"}, "sink": map[string]any{"Type": "DatasetSink", "Name": "out"},
+				"paused": true, "batchSize": 2, "triggers": []any{map[string]any{"triggerType": "cron", "jobType": "incremental", "schedule": "@every 8760h"}}}}
+		}
+		story := []Op{mk(), {K: "batch", DS: "dsA", Ents: []Ent{{"id": MkE + "t1", "props": map[string]any{MkS + "a0": "x"}, "refs": map[string]any{}}}}, {K: "run", S: "jobT", DS: "incremental"},
+			{K: "deleteJob", S: "jobT"}, mk(), {K: "batch", DS: "dsA", Ents: []Ent{{"id": MkE + "t2", "props": map[string]any{MkS + "a0": "y"}, "refs": map[string]any{}}}}, {K: "run", S: "jobT", DS: "incremental"}}
+		at := hg.Intn(len(ops) + 1)
+		for _, op := range story {
+			ops = append(ops[:at:at], append([]Op{op}, ops[at:]...)...)
+			at += 1 + hg.Intn(2)
+			if at > len(ops) {
+				at = len(ops)
+			}
+		}
+	}
 	pos := g.Intn(len(ops) + 1)
 	if tier == "thorough" {
 		pos = int(seed%16) % (len(ops) + 1)
